@@ -487,8 +487,7 @@ fn panic_msg(e: Box<dyn std::any::Any + Send>) -> String {
     }
 }
 
-/// explain_mode: "safe" (only queries outside class explainseek), "all", "none";
-/// avoid "dismaxwand": no TopDocs for queries of that class.
+/// explain_mode: "all" | "none"; avoid "dismaxwand": no TopDocs for queries of that class.
 fn run_case(tracer: &Tracer, case: &Value, explain_mode: &str, avoid: &str) {
     let vocab: Vec<String> = case["vocab"].as_array().unwrap().iter().map(|w| w.as_str().unwrap().to_string()).collect();
     let nd = case["docs"].as_array().unwrap().len();
@@ -538,13 +537,10 @@ fn run_case(tracer: &Tracer, case: &Value, explain_mode: &str, avoid: &str) {
         }
     }
     for q in case["queries"].as_array().unwrap() {
-        if avoid.contains("notphrase") && not_phrase_class(q) {
-            continue;
-        }
         let mut runs = vec![];
         let mut failed = false;
         for (name, s, body) in &searchers {
-            let explain = explain_mode == "all" || (explain_mode == "safe" && explain_safe(q));
+            let explain = explain_mode != "none";
             let no_tops: Vec<usize> = vec![];
             let ks_q = if avoid.contains("dismaxwand") && dismax_wand_class(q) { &no_tops } else { &ks };
             let r = std::panic::catch_unwind(std::panic::AssertUnwindSafe(|| run_query(s, *body, &vocab, q, ks_q, explain)));
@@ -592,7 +588,7 @@ fn rand_leaf(rng: &mut StdRng, vocab: &[&str]) -> Value {
     }
 }
 
-/// avoid: "boost" = no boost nodes in the random queries; "notphrase" = no phrase under a must-not.
+/// avoid: "boost" = no boost nodes in the random queries.
 fn rand_query(rng: &mut StdRng, vocab: &[&str], depth: u32, avoid: &str) -> Value {
     if depth == 0 {
         return rand_leaf(rng, vocab);
@@ -605,11 +601,7 @@ fn rand_query(rng: &mut StdRng, vocab: &[&str], depth: u32, avoid: &str) -> Valu
                 .map(|i| {
                     let o = *pick(rng, &["should", "should", "must", "must", "mustnot"]);
                     let o = if i == 0 && o == "mustnot" { "must" } else { o };
-                    let mut sub = rand_query(rng, vocab, depth - 1, avoid);
-                    while o == "mustnot" && avoid.contains("notphrase") && has_phrase(&sub) {
-                        sub = rand_query(rng, vocab, depth - 1, avoid);
-                    }
-                    json!({"o": o, "q": sub})
+                    json!({"o": o, "q": rand_query(rng, vocab, depth - 1, avoid)})
                 })
                 .collect();
             json!({"k": "bool", "cl": cl})
@@ -663,57 +655,6 @@ fn dismax_wand_class(q: &Value) -> bool {
     let qs = q["qs"].as_array().unwrap();
     qs.iter().filter(|x| may_yield_term_scorer(x)).count() >= 2 && !qs.iter().any(const_like)
 }
-/// class "notphrase": a must-not clause whose subtree contains a phrase (Exclude probes the
-/// PhraseScorer with seek_danger(target < doc()), which its debug assertion refuses).
-fn has_phrase(q: &Value) -> bool {
-    match q["k"].as_str().unwrap_or("") {
-        "phrase" => true,
-        "term" => false,
-        "boost" | "const" => has_phrase(&q["q"]),
-        "bool" => q["cl"].as_array().unwrap().iter().any(|c| has_phrase(&c["q"])),
-        "dismax" => q["qs"].as_array().unwrap().iter().any(has_phrase),
-        _ => false,
-    }
-}
-fn not_phrase_class(q: &Value) -> bool {
-    match q["k"].as_str().unwrap_or("") {
-        "boost" | "const" => not_phrase_class(&q["q"]),
-        "bool" => q["cl"].as_array().unwrap().iter().any(|c| (c["o"] == "mustnot" && has_phrase(&c["q"])) || not_phrase_class(&c["q"])),
-        "dismax" => q["qs"].as_array().unwrap().iter().any(not_phrase_class),
-        _ => false,
-    }
-}
-/// class "explainseek": explain() descends into a clause that need not match the document and
-/// whose weight seeks its scorer without the guard TermWeight::explain has.
-fn explain_safe(q: &Value) -> bool {
-    fn termlike(q: &Value) -> bool {
-        match q["k"].as_str().unwrap_or("") {
-            "term" => true,
-            "boost" => termlike(&q["q"]),
-            _ => false,
-        }
-    }
-    match q["k"].as_str().unwrap_or("") {
-        "term" | "phrase" => true,
-        "boost" | "const" => explain_safe(&q["q"]),
-        "bool" => {
-            let cl = q["cl"].as_array().unwrap();
-            let n_must = cl.iter().filter(|c| c["o"] == "must").count();
-            let n_should = cl.iter().filter(|c| c["o"] == "should").count();
-            cl.iter().all(|c| match c["o"].as_str().unwrap() {
-                "must" => explain_safe(&c["q"]),
-                "should" => if n_must == 0 && n_should == 1 { explain_safe(&c["q"]) } else { termlike(&c["q"]) },
-                _ => true,
-            })
-        }
-        "dismax" => {
-            let qs = q["qs"].as_array().unwrap();
-            if qs.len() == 1 { explain_safe(&qs[0]) } else { qs.iter().all(termlike) }
-        }
-        _ => false,
-    }
-}
-
 fn rand_case(rng: &mut StdRng, tag: Value, avoid: &str, big: bool) -> Value {
     let vocab = ["a", "b", "c"];
     let nd = *pick(rng, &[1usize, 2, 3, 4, 5, 6, 8, 12, 20, 30]);
@@ -773,7 +714,7 @@ fn main() {
     // the quantisation table, once, as a certificate (TLC checks id = largest i with tab[i] <= len)
     let tab: Vec<u32> = (0..=255u8).map(FieldNormReader::id_to_fieldnorm).collect();
     tracer.emit(json!({"ev": "table", "tab": tab}));
-    let explain_mode = a.get("explain", "safe");
+    let explain_mode = a.get("explain", "all");
     let avoid = a.get("avoid", "");
     match mode.as_str() {
         "random" => {
@@ -797,7 +738,7 @@ fn main() {
             }
         }
         _ => {
-            eprintln!("usage: bm25_driver random|replay --out trace.ndjson [--explain safe|all|none] [--avoid boost,dismaxwand,notphrase] [--seed N --runs N [--bigpads] | --in cases.ndjson]");
+            eprintln!("usage: bm25_driver random|replay --out trace.ndjson [--explain all|none] [--avoid boost,dismaxwand] [--seed N --runs N [--bigpads] | --in cases.ndjson]");
             std::process::exit(2);
         }
     }
